@@ -29,6 +29,8 @@ NEAR += ["matchespattern", "geo.now", "geo.contains", "distance", "intersects", 
 # Unicode compatibility look-alikes (\w matches them): full-width / math-bold letters and digits are NOT the ASCII names
 NEAR += ["\uff43oncat", "con\uff43at", "\uff4eow", "\uff47eo.distance", "geo.distance\uff12", "\U0001d427\U0001d428\U0001d430", "len\u0261th", "\uff4cength",
          "\uff47eo.length", "lengt\u02b0", "\u017fubstring", "\u212aontains"]
+# the lambda keywords are keywords only at the end of a path; anywhere else `any(` / `all(` start a call of an unknown function
+NEAR += ["any", "all", "ANY", "All", "geo.any", "ns.all", "anything", "allx"]
 NEAR += ["geo." + n for n in REF_FUNCTIONS if "." not in n]      # every bare built-in moved into the geo namespace
 NAMES = BUILTINS + sorted(set(NEAR) - set(BUILTINS))
 
